@@ -40,6 +40,9 @@ type c05eCase struct {
 	// Src: "" a scripted AnySource with generated geometry and identity; "triangle" / "simpulse": the real simulated source,
 	// configured and prepared as Start does (its own geometry, names and sub-frame parameters)
 	Src string `json:"src,omitempty"`
+	// MapPixels: a TES map with so many pixels is loaded (the RPC layer hands it to every START): START either succeeds or is
+	// refused with a map error - it must not end the server
+	MapPixels int `json:"map_pixels,omitempty"`
 }
 
 func c05eGen(t *rapid.T) c05eCase {
@@ -59,7 +62,10 @@ func c05eGen(t *rapid.T) c05eCase {
 	}
 	c.DecimateOff = c.Decimate > 0 && rapid.IntRange(0, 2).Draw(t, "decoff") == 0
 	c.OffBeyond = rapid.IntRange(0, 3).Draw(t, "offbeyond") == 0
-	c.Src = rapid.SampledFrom([]string{"", "", "triangle", "simpulse", "lancero"}).Draw(t, "src")
+	c.Src = rapid.SampledFrom([]string{"", "", "triangle", "simpulse", "lancero", "roach", "abaco"}).Draw(t, "src")
+	if rapid.IntRange(0, 3).Draw(t, "map") == 0 {
+		c.MapPixels = rapid.SampledFrom([]int{1, c.Nchan, c.Nchan, c.Nchan + 1, 2 * c.Nchan}).Draw(t, "mappixels")
+	}
 	if c.Src != "" {
 		c.Decimate = 0
 	}
@@ -120,6 +126,35 @@ func c05eRun(c c05eCase) (v vVerdict) {
 			return vFailf("prepare", "%v", err)
 		}
 		ds = &sp.AnySource
+	case "roach":
+		// a ROACH source after its sampling step (one device with Nchan channels)
+		rs, err := NewRoachSource()
+		if err != nil {
+			return vFailf("prepare", "%v", err)
+		}
+		rs.nchan = c.Nchan
+		rs.sampleRate = c.Rate
+		rs.samplePeriod = time.Duration(math.Round(1e9 / c.Rate))
+		if err := rs.PrepareChannels(); err != nil {
+			return vFailf("prepare", "%v", err)
+		}
+		ds = &rs.AnySource
+	case "abaco":
+		// an Abaco source after its sampling step (one channel group)
+		as, err := NewAbacoSource()
+		if err != nil {
+			return vFailf("prepare", "%v", err)
+		}
+		gi := GroupIndex{Firstchan: c.Seed % 3, Nchan: c.Nchan}
+		as.nchan = c.Nchan
+		as.groups = map[GroupIndex]*AbacoGroup{gi: NewAbacoGroup(gi, AbacoUnwrapOptions{})}
+		as.groupKeysSorted = []GroupIndex{gi}
+		as.sampleRate = c.Rate
+		as.samplePeriod = time.Duration(math.Round(1e9 / c.Rate))
+		if err := as.PrepareChannels(); err != nil {
+			return vFailf("prepare", "%v", err)
+		}
+		ds = &as.AnySource
 	case "lancero":
 		// one in-memory card of 1-2 columns; Nchan streams = 2 x cols x rows (error and feedback of every column and row)
 		cols := 1 + c.Seed%2
@@ -225,9 +260,20 @@ func c05eRun(c c05eCase) (v vVerdict) {
 		}
 	}
 	cfg := &WriteControlConfig{Request: "START", WriteLJH22: c.Types&1 != 0, WriteLJH3: c.Types&2 != 0, WriteOFF: c.Types&4 != 0, Path: root}
+	if c.MapPixels > 0 && c.MapPixels <= 1000 {
+		m := &Map{Spacing: 250, Filename: "verif.map"}
+		for k := 0; k < c.MapPixels; k++ {
+			m.Pixels = append(m.Pixels, Pixel{X: 10 * k, Y: 20 * k, Name: fmt.Sprintf("pix%d", k+1)})
+		}
+		cfg.MapInternalOnly = m
+	}
 	if err := ds.WriteControl(cfg); err != nil {
 		if cfg.WriteOFF && !anyProj {
 			return v // OFF files need projectors: refused by design
+		}
+		if _, isMapErr := err.(mapError); isMapErr && cfg.MapInternalOnly != nil {
+			v.Classes = append(v.Classes, "start-refused-for-the-map")
+			return v // the map does not fit the source's channels: refused cleanly
 		}
 		return vFailf("start-rejected", "WriteControl START (types %d) on a %d-channel source: %v", c.Types, c.Nchan, err)
 	}
@@ -266,6 +312,10 @@ func c05eRun(c c05eCase) (v vVerdict) {
 				// offset is its row number (error and feedback of a row are read at the same row time)
 				p.SubDiv, p.SubOff = lanceroRows, rc.row()
 			}
+		}
+		if cfg.MapInternalOnly != nil { // the pixel of a channel is looked up by its channel number (counting from 1)
+			px := cfg.MapInternalOnly.Pixels[ds.chanNumbers[ch]-1]
+			p.PixX, p.PixY, p.PixName = px.X, px.Y, px.Name
 		}
 		name := ds.processors[ch].Name
 		type fc struct {
